@@ -295,6 +295,13 @@ class CancelScope(AbstractCancelScope):
                 delayed_task_cancel.handle.cancel()
                 delayed_task_cancel = None
 
+            # Withdraw the cancellation requests sent by this scope which have not been consumed yet
+            # (e.g. swallowed by a shielded section), otherwise task.cancelling() would never go back to its initial value.
+            while self.__host_task_cancel_calls > 0:
+                self.__host_task_cancel_calls -= 1
+                if host_task.cancelling() > self.__host_task_cancelling:
+                    host_task.uncancel()
+
         self._check_pending_cancellation(host_task)
 
         return self.__cancelled_caught
